@@ -3121,7 +3121,9 @@ where
         let reserve = if self.is_empty() {
             iter.size_hint().0
         } else {
-            (iter.size_hint().0 + 1) / 2
+            // Half the hint, rounded up; written so that a hint of `usize::MAX` cannot overflow.
+            let hint = iter.size_hint().0;
+            hint / 2 + hint % 2
         };
         self.reserve(reserve);
         iter.for_each(move |(k, v)| {
